@@ -121,6 +121,10 @@ FIX_THIRD = [
     ("C08.eq_all", EQ_ALL(NPOS)),
 ]
 RAN_OK = (f"status != PROP_INCONSISTENCY and prop_idx == q0 and {EQ_ALL(NPOS)} and (not shr_domains_changes or algorithms[q0] != ALG_AFFINE_EQ)")
+# J (a disabled constraint holds on every point of the box) does not depend on the wake-up masks: carried here too, so that with the bridge axiom A-FIX-ACC
+# the acceptance theorem (C01) holds for arbitrary masks under the hypotheses of the fixpoint layer
+J_OUTER = [c for c in ACC_OUTER if c[0] == "C01.J"]
+J_INNER = [c for c in ACC_INNER if c[0] in ("C01.J_others", "C01.J_q0", "C01.store_in_out")]
 fl1 = dict(BASE.loops[1]); fl1["invariant"] = list(fl1["invariant"]) + FIX_OUTER
 fl2 = dict(BASE.loops[2]); fl2["invariant"] = list(fl2["invariant"]) + FIX_INNER
 fl3 = dict(BASE.loops[3]); fl3["invariant"] = list(fl3["invariant"]) + FIX_THIRD
@@ -136,3 +140,19 @@ contract("nucs/solvers/bound_consistency_algorithm.py::bound_consistency_algorit
     ensures=CA_FRAME + CA_FRAME_IFACE + [CA_SHRINK, CA_STATUS, CA_BOUND, CA_UNBOUND, ("C17.others", OTHER_STATS), ("C17.solver_stats", SOLVER_STATS_SAME_BC)] + FIX_ENS,
     # a missed wake-up under partial masks also lets a non-solution through (C01, C02): the acceptance variant above only covers full masks
     tags={"C08": ["C08", "C01", "C02"]}, arities=[], timeout_ms=200000)
+
+
+# ------------------------------------------------------------------ J alone (no hypothesis on the wake-up masks): a disabled constraint holds on every point of the box.
+# Together with #fix (same function, conjunction of two verified contracts) this implements the interface ConsistencyAlgFixJ used for acceptance under arbitrary masks.
+jl1 = dict(BASE.loops[1]); jl1["invariant"] = list(jl1["invariant"]) + J_OUTER
+jl2 = dict(BASE.loops[2]); jl2["invariant"] = list(jl2["invariant"]) + J_INNER + [("C01.q0", "prop_idx == q0 and 0 <= q0 and q0 < P")]
+jl3 = dict(BASE.loops[3])
+for _k in ("decreases", "step_hints", "hints", "step_ensures"):
+    jl1.pop(_k, None)
+contract("nucs/solvers/bound_consistency_algorithm.py::bound_consistency_algorithm", variant="j", types=ENGINE_T, props=["C01", "C07"],
+    requires=list(BASE.requires) + [("C01.J0", ACC_J(SS))],
+    calls=BASE.calls, ghost_calls=BASE.extra["ghost_calls"], ghost=BASE.ghost, defs=BASE.extra["defs"], call_ghosts=BASE.extra["call_ghosts"],
+    ghost_results={"pop_propagator": "q0"}, ghost_init={"dch": 0},
+    modifies=BASE.modifies, loops={1: jl1, 2: jl2, 3: jl3},
+    ensures=CA_FRAME + CA_FRAME_IFACE + [CA_SHRINK, CA_STATUS, CA_BOUND, CA_UNBOUND, ("C17.others", OTHER_STATS), ("C17.solver_stats", SOLVER_STATS_SAME_BC)] + [ACC_ENS[1]],
+    tags={"C01": ["C01", "C07"]}, arities=[], timeout_ms=200000)
